@@ -170,6 +170,19 @@ func shadow(x *mon.Ctx, c *world.Case, fresh mon.Outcome) {
 		o := mon.RunVerifyShared(c, sh)
 		if o.Panic == "" && first.Panic == "" && o.Accepted != fresh.Accepted {
 			x.Violation("reused-options/"+c.Class, c.Param, fmt.Sprintf("after verifying the unbroken twin (accepted=%v) through the same options value, this case is judged accepted=%v (err=%s); through a fresh value accepted=%v (err=%s)", first.Accepted, o.Accepted, o.Err, fresh.Accepted, fresh.Err), "verify", c)
+		} else if o.Panic == "" && first.Panic == "" {
+			// ... and once more (twin, case, case), then the twin again (twin, case, case, twin): what a refused call leaves behind
+			// must not vouch for its repetition, nor spoil the next good one
+			o2 := mon.RunVerifyShared(c, sh)
+			back := mon.RunVerifyShared(&t, sh)
+			switch {
+			case o2.Panic != "" || back.Panic != "":
+				x.Violation("reused-options/"+c.Class, c.Param, "history twin, case, case, twin through one options value panics: "+o2.Panic+back.Panic+"\n"+o2.Stack+back.Stack, "verify", c)
+			case o2.Accepted != fresh.Accepted:
+				x.Violation("reused-options/"+c.Class, c.Param, fmt.Sprintf("history (unbroken twin, this case, this case again) through one options value: the third call is judged accepted=%v (err=%s); the second was accepted=%v, a fresh value says accepted=%v (err=%s)", o2.Accepted, o2.Err, o.Accepted, fresh.Accepted, fresh.Err), "verify", c)
+			case back.Accepted != first.Accepted:
+				x.Violation("reused-options/"+c.Class, c.Param, fmt.Sprintf("history (unbroken twin, this case twice, the twin again) through one options value: the twin was accepted=%v at first and is accepted=%v (err=%s) at the end", first.Accepted, back.Accepted, back.Err), "verify", c)
+			}
 		}
 		x.Note("reused-options-after-twin", c.Class+"/"+c.Param+"/"+c.Form+"/"+lvl(c), fresh.Accepted, false, true)
 	}
